@@ -188,6 +188,41 @@ def parse_env(text):
     return out
 
 
+def _rec(txt):
+    return dict((int(a.partition('=')[0]), a.partition('=')[2]) for a in txt.split(',') if a)
+
+
+def _str_token(c):
+    """implementation str -> the hex of its UTF-8 bytes (what the model carries)"""
+    if isinstance(c, str) and c.startswith('s:'):
+        try:
+            return 's:' + c[2:].encode('utf-8').hex()
+        except UnicodeEncodeError:
+            return ('unencodable', c)
+    return ('not-a-str', c)
+
+
+def cmp_record(items, rv, fl, pathfn):
+    """first difference between one decoded record of the model and the implementation's attributes"""
+    for b in items:
+        if b['t'] == 'str':
+            pth = pathfn(b)
+            if pth is not None and rv.get(b['id']) != _str_token(fl.get(pth)):
+                return '%s: model %r, implementation %r' % (pth, rv.get(b['id']), fl.get(pth))
+        elif b['t'] == 'field':
+            pth = pathfn(b)
+            if pth is None:
+                continue
+            mt, im = model_token(b, rv.get(b['id'], '?')), impl_token(b, fl.get(pth))
+            if mt != im:
+                return '%s: model %r, implementation %r (%r)' % (pth, mt, im, fl.get(pth))
+    return None
+
+
+def _abs_path(b):
+    return b['paths'][0] if b.get('paths') else None
+
+
 def compare_env(desc, envtext, fl):
     """first difference between the model's decoded values and the implementation's attributes, or None"""
     env = parse_env(envtext)
@@ -202,27 +237,73 @@ def compare_env(desc, envtext, fl):
                     if pth in fl and fl[pth] != mt:
                         return '%s: model %r, implementation %r' % (pth, mt, fl[pth])
                 continue
+            if not it.get('paths'):
+                continue            # no attribute of the object mirrors this wire field (a tag implied by the object's type)
             pth = it['paths'][0]
             im = impl_token(it, fl.get(pth))
             if im != mt:
                 return '%s: model %r, implementation %r (%r)' % (pth, mt, im, fl.get(pth))
         elif it['t'] == 'bytes':
-            if env.get(it['id']) != fl.get(it['path']):
-                return '%s: model %r, implementation %r' % (it['path'], env.get(it['id']), fl.get(it['path']))
+            mv = env.get(it['id'])
+            iv = fl.get(it['path'])
+            if it.get('mode', ['raw'])[0] == 'str':
+                iv = _str_token(iv)
+                iv = 'b:' + iv[2:] if isinstance(iv, str) else iv
+            if mv != iv:
+                return '%s: model %r, implementation %r' % (it['path'], mv, iv)
         elif it['t'] == 'counted':
             txt = env.get(it['id'], '')
             recs = [r for r in txt[3:-1].split('|')] if txt.startswith('r:[') and len(txt) > 4 else []
             if fl.get(it['path'] + '.len') != len(recs):
                 return '%s: model %d records, implementation %r' % (it['path'], len(recs), fl.get(it['path'] + '.len'))
             for j, r in enumerate(recs):
-                rv = dict((int(a.partition('=')[0]), a.partition('=')[2]) for a in r.split(',') if a)
-                for b in it['body']:
-                    if b['t'] != 'field':
-                        continue
-                    pth = '%s[%d]%s' % (it['path'], j, b['paths'][0])
-                    mt, im = model_token(b, rv.get(b['id'], '?')), impl_token(b, fl.get(pth))
-                    if mt != im:
-                        return '%s: model %r, implementation %r' % (pth, mt, im)
+                d = cmp_record(it['body'], _rec(r), fl, lambda b, j=j: '%s[%d]%s' % (it['path'], j, b['paths'][0]))
+                if d:
+                    return d
+        elif it['t'] == 'switch':
+            txt = env.get(it['id'], '')
+            tag = _hx(env.get(it['tag_id'], '0'))
+            case = it['cases'].get(str(tag))
+            if case is None:
+                if txt != 'r:[]':
+                    return '%s: model %r for a tag without a case' % (it['name'], txt)
+                if it.get('absent_path') and fl.get(it['absent_path'], 'missing') is not None:
+                    return '%s: model absent, implementation %r' % (it['absent_path'], fl.get(it['absent_path']))
+            else:
+                if not (txt.startswith('r:[') and '|' not in txt):
+                    return '%s: model %r' % (it['name'], txt)
+                d = cmp_record(case['items'], _rec(txt[3:-1]), fl, _abs_path)
+                if d:
+                    return d
+        elif it['t'] == 'tagged':
+            txt = env.get(it['id'], '')
+            if txt == 'opaque':
+                if fl.get(it['obj_path'], 'missing') is not None:
+                    return '%s: model says not understood, implementation has %r' % (it['obj_path'], fl.get(it['obj_path']))
+                continue
+            if not txt.startswith('t:['):
+                return '%s: model %r' % (it['name'], txt)
+            h, _, rest = txt[3:].partition('][')
+            o, _, sz = rest.partition(']:')
+            tag = _hx(env.get(it['tag_id'], '0'))
+            rh, ro = _rec(h), _rec(o)
+            if it['sub'] and tag == it['sub']['tag_value']:
+                d = cmp_record(it['sub']['hdr'], rh, fl, _abs_path)
+                if d:
+                    return d
+                case = it['sub']['cases'].get(str(_hx(rh.get(it['sub']['sid_id'], '0'))))
+            else:
+                case = it['cases'].get(str(tag))
+            if case is None:
+                return '%s: model decodes tag %d for which the description has no case' % (it['name'], tag)
+            skipped = bool(it['skip']) and (_hx(env.get(it['skip_id'], '0')) & it['skip'][1]) != 0
+            if skipped:
+                if not any(k.startswith(it['obj_path'] + '.' + case['name']) or k == it['obj_path'] + '.' + case['name'] for k in fl) and case['items']:
+                    return '%s: revert-to-default: implementation object is not a %s' % (it['obj_path'], case['name'])
+                continue
+            d = cmp_record(case['items'], ro, fl, _abs_path)
+            if d:
+                return d
     return None
 
 
@@ -244,9 +325,9 @@ def correspondence(ctx, res, gen):
     model = build_model()
     descs = gen['descriptions']
     lines, meta = [], []
-    for key, d in descs.items():
-        r = res.get(key)
-        if r is None:
+    for key, r in res.items():
+        d = descs.get(key.split('[')[0])
+        if d is None:
             continue
         for c in r['cases']:
             lines.append('D %d %s' % (d['index'], c['hex'] or '-')); meta.append((key, c, True))
@@ -255,7 +336,7 @@ def correspondence(ctx, res, gen):
     outs = vf.run_parallel(model, lines)
     nbad = 0
     for (key, c, parsed), ln, out in zip(meta, lines, outs):
-        d = descs[key]
+        d = descs[key.split('[')[0]]
         ctx.count('correspondence:' + ('parsed' if parsed else 'rejected'))
         case = {'key': key, 'hex': c['hex'], 'model': out[:600]}
         if not parsed:
@@ -269,7 +350,7 @@ def correspondence(ctx, res, gen):
             ctx.broken_correspondence('%s: the model does not decode an input the implementation parses' % key, dict(case, impl_n=c['n']))
             continue
         f = dict(x.split('=', 1) for x in out[3:].split(' ', 4))
-        ctx.count('correspondence:stamps-in-domain' if f['dom'] == '1' else 'correspondence:stamps-outside-domain')
+        ctx.count('correspondence:canonical-input(stamps in domain, lengths canonical)' if f['dom'] == '1' else 'correspondence:non-canonical-input')
         diffs = []
         if int(f['n']) != c['n']:
             diffs.append('bytes consumed: model %s, implementation %s' % (f['n'], c['n']))
@@ -278,8 +359,8 @@ def correspondence(ctx, res, gen):
             mp = '' if f['pack'] == '-' else f['pack']
             if mp != ip:
                 diffs.append('pack(): model %s, implementation %s' % (mp[:80], ip[:80]))
-        elif isinstance(ip, str) and ip.startswith('raise') and f['pack'] != 'FAIL':
-            diffs.append('pack(): implementation raises, model writes %s' % f['pack'][:80])
+        elif isinstance(ip, str) and (ip.startswith('raise') or ip == 'refusal') and f['pack'] != 'FAIL':
+            diffs.append('pack(): implementation %s, model writes %s' % ('refuses' if ip == 'refusal' else 'raises', f['pack'][:80]))
         if isinstance(c.get('calcsize'), int) and f['size'] != 'FAIL' and int(f['size']) != c['calcsize'] and c['ok']:
             diffs.append('calcsize: model %s, implementation %s' % (f['size'], c['calcsize']))
         dv = compare_env(d, f.get('env', ''), flat(c['fields']))
@@ -397,6 +478,8 @@ def run(ctx):
     if gen is not None:
         ctx.coverage['described_classes'] = sorted(gen['descriptions'])
         ctx.coverage['law_only_classes'] = gen['inexpressible']
+        ctx.coverage['container_cases_described'] = {k: len(next(i for i in d['items'] if i['t'] == 'tagged')['cases']) + len((next(i for i in d['items'] if i['t'] == 'tagged')['sub'] or {'cases': {}})['cases'])
+                                                      for k, d in gen['descriptions'].items() if any(i['t'] == 'tagged' for i in d['items'])}
     # 2. proofs
     if not stale:
         if not ctx.coq(['theories/Models/TimestampF.vo']):
